@@ -7,13 +7,13 @@ from checks import make_common as mc
 TUS = ['movegen', 'position', 'types', 'bithacks', 'move_bitboards']
 ENTRIES = ['_ZN6engine14generate_movesERKNS_8PositionENS_5ColorEPj']
 SLIDERS = ['_ZN6engine13slider_attackILNS_9PieceKindE3EEEmNS_6SquareEm', '_ZN6engine13slider_attackILNS_9PieceKindE4EEEmNS_6SquareEm', '_ZN6engine13slider_attackILNS_9PieceKindE5EEEmNS_6SquareEm']
-SC = {'': 0, 'ep': 1, 'castle': 2, 'check': 4}
+SC = {'': 0, 'ep': 1, 'castle': 2, 'check': 4, 'eprank': 9}
 
 def cases(tier):
     """(material string, scenario) pairs"""
-    if tier == 'quick': return [('KPk', ''), ('Kkp', ''), ('KNk', '', 'w'), ('KRk', '', 'w'), ('KPkpq', 'ep', 'w'), ('KQkPp', 'ep', 'b'), ('KRRk', 'castle', 'w')]
+    if tier == 'quick': return [('KPk', ''), ('Kkp', ''), ('KNk', '', 'w'), ('KRk', '', 'w'), ('KPkpb', 'ep', 'w'), ('KQkPp', 'eprank', 'b'), ('KRRk', 'castle', 'w')]
     t = [(material.name(m), '') for m in material.M(3)]
-    t += [('KPkp', 'ep'), ('KPkpb', 'ep'), ('KPkpr', 'ep'), ('KPkpq', 'ep'), ('KBkPp', 'ep'), ('KRkPp', 'ep'), ('KQkPp', 'ep'), ('KPPkp', 'ep'), ('KPkpp', 'ep'),
+    t += [('KPkp', 'ep'), ('KPkpb', 'ep'), ('KPkpr', 'ep'), ('KPkpq', 'ep'), ('KBkPp', 'ep'), ('KRkPp', 'ep'), ('KQkPp', 'ep'), ('KQkPp', 'eprank'), ('KPkpq', 'eprank'), ('KPPkp', 'ep'), ('KPkpp', 'ep'),
           ('KRRk', 'castle'), ('Kkrr', 'castle'), ('KRRkn', 'castle'), ('KRRkb', 'castle'), ('KRRkr', 'castle'), ('KRRkq', 'castle'), ('KRRkp', 'castle'),
           ('KNkrr', 'castle'), ('KBkrr', 'castle'), ('KRkrr', 'castle'), ('KQkrr', 'castle'), ('KPkrr', 'castle'),
           ('KPkr', ''), ('KRkp', ''), ('KPkn', ''), ('KNkp', ''), ('KPkq', ''), ('KQkp', ''), ('KPkb', ''), ('KBkp', ''),
@@ -55,7 +55,7 @@ def check(ctx):
         for side in (0, 1):
             if len(case) > 2 and 'wb'[side] != case[2]: continue
             if sc == 'castle' and not ((side == 0 and 4 in mat) or (side == 1 and 10 in mat)): continue
-            if sc == 'ep' and not ((side == 0 and 1 in mat and 7 in mat) or (side == 1 and 7 in mat and 1 in mat)): continue
+            if sc in ('ep', 'eprank') and not ((side == 0 and 1 in mat and 7 in mat) or (side == 1 and 7 in mat and 1 in mat)): continue
             for kind in ('sound', 'complete'):
                 fn = 'h_%s_%s_%s%s' % (kind, ms, 'wb'[side], ('_' + sc) if sc else '')
                 H.append('void %s(void) { static const uint32_t mat[] = %s; %s_case(mat, %d, %d, %d); }' % (fn, material.cinit(mat), kind, len(mat), side, SC[sc]))
@@ -64,10 +64,10 @@ def check(ctx):
     D = ['S_USE_BITBOARD_ORACLE']
     gb = ctx.gotocc('c01', [c, hp], D); gbw = ctx.gotocc('c01w', [c, hp], D + ['WITNESS'])
     qs, ws = [], []
-    to = 1500 if ctx.tier == 'quick' else 2700
+    to = 800 if ctx.tier == 'quick' else 2700
     for fn, smp, mat in names:
         if ctx.only and not re.search(ctx.only, fn): continue
-        us = mc.unwindset(len(mat)); us.update(loop_bounds(ctx, gb, mat)); us.update({'complete_case.0': 97, 'scenario.0': 65})
+        us = mc.unwindset(len(mat)); us.update(loop_bounds(ctx, gb, mat)); us.update({'complete_case.0': 97, 'scenario.0': 9})
         qs.append(Query(fn, gb, fn, us, timeout=to, sample=smp, meta={'mat': mat}, max_unwind={'*': 40}))
         ws.append(Query('w_' + fn, gbw, fn, us, timeout=to, sample=smp, meta={'of': fn}, expect='witness', max_unwind={'*': 40}))
     res = ctx.run_queries(qs + ws, label='c01')
